@@ -57,7 +57,7 @@ pub fn check(c: &Case) -> Checked {
     let first = want.first().copied().unwrap_or(0.0);
     let varies = want.iter().any(|x| !bits_eq(*x, first));
     let mut both_ran = true;
-    for b in [Backend::Vm, Backend::Wasm] {
+    for &b in Backend::all() {
         match run_program(b, &c.src, c.scheduler, c.n, &inp, false, c.path.as_ref().map(std::path::PathBuf::from)) {
             Ok(r) => {
                 res.ran.push(b.name());
